@@ -445,7 +445,10 @@ def run_case(idx, rng, P, rep):
             if how == 'trigger':
                 inst['obj'].param.trigger(p)
             else:
-                with inst['obj'].param.update(**{p: fresh_value(specs[p]['kind'])}):
+                tmp_ = {p: fresh_value(specs[p]['kind'])}
+                form_ = rng.choice(['kw', 'mapping', 'pairs'])
+                with (inst['obj'].param.update(**tmp_) if form_ == 'kw' else inst['obj'].param.update(tmp_) if form_ == 'mapping'
+                      else inst['obj'].param.update(iter(list(tmp_.items())))):
                     pass
             check_flags(fb, f'inst{ii}: {how} {p}')
             if specs[p].get('per_instance', True):
